@@ -59,9 +59,9 @@ fn check_all(d: &Decl, body: &[&str]) -> Vec<String> {
         }
         for v in &d.enums[&r.enum_id].variants {
             let lines: Vec<&&str> = body.iter().filter(|l| is_list_line(l) && first_word(l) == v.name).collect();
-            if r.hidden {
+            if !r.in_help() {
                 // (a visible member may answer to the same name; then the line belongs to that one)
-                let shadowed = d.roots.iter().any(|o| !o.hidden && o.enum_id != "RAW" && d.enums[&o.enum_id].variants.iter().any(|ov| ov.name == v.name));
+                let shadowed = d.roots.iter().any(|o| o.in_help() && d.enums[&o.enum_id].variants.iter().any(|ov| ov.name == v.name));
                 if !lines.is_empty() && !shadowed {
                     errs.push(format!("command {:?} of a hidden group is listed", v.name));
                 }
@@ -376,7 +376,7 @@ fn run_shard(ctx: &ShardCtx) {
             ctx.class("declarations exercised");
             let strat = line_strategy(help_tokens_strategy(d));
             let sub = "derived-help";
-            let has_hidden = d.roots.iter().any(|r| r.hidden);
+            let has_hidden = d.roots.iter().any(|r| r.enum_id != "RAW" && !r.in_help());
             ctx.run_prop(
                 &format!("{}-{}", sub, gi),
                 lines_per_decl * ctx.nshards as u64,
